@@ -364,6 +364,10 @@ func (d *deepTaint) analyse(root *ssa.Function) (findings []deepFinding, stats [
 				return walk(x.X)
 			case *ssa.ChangeType:
 				return walk(x.X)
+			case *ssa.TypeAssert:
+				return walk(x.X)
+			case *ssa.Extract:
+				return walk(x.Tuple)
 			case *ssa.Phi:
 				for _, e := range x.Edges {
 					if walk(e) {
@@ -401,6 +405,14 @@ func (d *deepTaint) analyse(root *ssa.Function) (findings []deepFinding, stats [
 				stats[2]++
 				if d.carried(fn, x.Val, in) && rootedInCaller(x.Addr) {
 					findings = append(findings, deepFinding{in, "stores an argument-owned container into caller-owned or global memory"})
+				}
+			case *ssa.Call:
+				// copy(dst, src) into memory the caller can see (an out parameter): the elements are shared, not copied
+				if b, ok := x.Call.Value.(*ssa.Builtin); ok && b.Name() == "copy" && len(x.Call.Args) == 2 {
+					stats[2]++
+					if sl, ok := x.Call.Args[1].Type().Underlying().(*types.Slice); ok && !immutable(sl.Elem()) && d.t[x.Call.Args[1]] && rootedInCaller(x.Call.Args[0]) {
+						findings = append(findings, deepFinding{in, "copies the elements of an argument-owned slice into caller-visible memory: the containers inside the elements are shared, not copied"})
+					}
 				}
 			}
 		})
